@@ -46,7 +46,7 @@ def cases(tier, seed):
         for cls in ("kFlowDecomp", "kMinPathError", "kLeastAbsErrors", "MinFlowDecomp"):
             yield dict(inst, cls=cls, level=1)
     for name in HAND_MFD:
-        yield dict(HAND_MFD[name][0], cls="MinFlowDecomp", level=1, hand_mfd=name)
+        yield dict(HAND_MFD[name][0], cls="MinFlowDecompCycles" if name.startswith("cyc:") else "MinFlowDecomp", level=1, hand_mfd=name)
     for name in OFFWALK:
         for cls in sweep.CYC_CLASSES:
             yield {"offwalk": name, "cls": cls, "fam": "cyc"}
@@ -73,6 +73,12 @@ HAND_MFD = {
     "chain_only_last_node_weighted": ({"fam": "dag", "nodes": [f"v{i}" for i in range(12)], "arcs": [[f"v{i}", f"v{i + 1}", None] for i in range(11)],
                                        "node_w": dict({f"v{i}": None for i in range(11)}, v11=5)},
                                       {"weight_type": "int", "flow_attr_origin": "node"}),
+    # a star with float flows one of which is 0 (the generating set gets a rounding residue like 2e-16 where a 0 belongs)
+    "float_star_with_zero": ({"fam": "dag", "nodes": ["s", "t0", "t1", "z"], "arcs": [["s", "t0", 0.1], ["s", "t1", 0.2], ["s", "z", 0.0]]}, {"weight_type": "float"}),
+    "float_thirds": ({"fam": "dag", "nodes": ["s", "a", "b", "t"], "arcs": [["s", "a", 1.0], ["a", "t", 1.0], ["s", "b", 4.0 / 3.0], ["b", "t", 4.0 / 3.0], ["s", "t", 5.0 / 3.0]]}, {"weight_type": "float"}),
+    # (cyclic class) a node-weighted 2-cycle without any natural source or sink: walks start at a and end at b
+    "cyc:two_cycle_start_end": ({"fam": "cyc", "nodes": ["a", "b"], "arcs": [["a", "b", None], ["b", "a", None]], "node_w": {"a": 3, "b": 3}},
+                                {"weight_type": "int", "flow_attr_origin": "node", "additional_starts": ["a"], "additional_ends": ["b"]}),
     # three disjoint source-sink paths carrying 0.1, 0.4, 0.2 (the level sums of the partition constraints are float sums)
     "three_float_paths": ({"fam": "dag", "nodes": ["s", "a", "b", "c", "t"],
                            "arcs": [["s", "a", 0.1], ["a", "t", 0.1], ["s", "b", 0.4], ["b", "t", 0.4], ["s", "c", 0.2], ["c", "t", 0.2]]},
@@ -130,10 +136,32 @@ def _offwalk(case):
     return {"v": viol[:4], "nt": nt, "tags": dict(tags), "out": "viol" if viol else "ok"}
 
 
+def _hand_generic(case, inst, kw0, cls, rkey, extra):
+    viol, nt, tags = [], [], collections.Counter()
+    assignments = sweep.flag_sets(cls, 1)
+    ref_obs = drivers.observe(dict(inst, cls=cls, kw=dict(kw0, optimization_options=dict(assignments[1][1]))))
+    ref = ("exc", ref_obs["exc_type"]) if ref_obs["exc"] else _objective(cls, ref_obs, rkey)
+    for aname, fl in [assignments[0]] + assignments[2:] + extra:
+        obs = drivers.observe(dict(inst, cls=cls, kw=dict(kw0, optimization_options=dict(fl))))
+        tags["runs"] += 1
+        cur = ("exc", obs["exc_type"]) if obs["exc"] else _objective(cls, obs, rkey)
+        if cur != ref:
+            viol.append({"kind": "option_raises" if obs["exc"] else "option_changes_result", "opt": aname,
+                         "msg": f"{cls}({case['hand_mfd']}: {inst.get('arcs')} {inst.get('node_w', '')} {kw0}; options {aname}): {cur} {obs['exc'] or ''}, with all optimisations off: {ref}"})
+        else:
+            nt.append(f"{case['hand_mfd']}|{aname}")
+    return {"v": viol[:4], "nt": nt, "tags": dict(tags), "out": "viol" if viol else "ok"}
+
+
 def _hand_mfd(case):
     viol, nt, tags = [], [], collections.Counter()
     inst, kw0 = HAND_MFD[case["hand_mfd"]]
-    cls = "MinFlowDecomp"
+    cls = case.get("cls", "MinFlowDecomp")
+    if cls == "MinFlowDecompCycles":
+        return _hand_generic(case, inst, kw0, cls, "walks",
+                             [("mingenset", {"use_min_gen_set_lowerbound": True}), ("guessed", {"optimize_with_guessed_weights": True}),
+                              ("guessed+free", {"optimize_with_guessed_weights": True, "optimize_with_given_weights_num_free_walks": 1}),
+                              ("guessed+mgs+add", {"optimize_with_guessed_weights": True, "use_min_gen_set_lowerbound": True, "add_min_gen_set_to_given_weights": True})])
     assignments = sweep.flag_sets(cls, 1)
     extra = [("mingenset", {"use_min_gen_set_lowerbound": True}), ("mingenset+part", {"use_min_gen_set_lowerbound": True, "use_min_gen_set_lowerbound_partition_constraints": True}),
              ("guessed+mgs", {"optimize_with_guessed_weights": True, "use_min_gen_set_lowerbound": True}), ("mingenset,greedy_off", {"use_min_gen_set_lowerbound": True, "optimize_with_greedy": False}),
@@ -210,6 +238,12 @@ def run(case):
             # inputs on which 'total flow leaving the sources' is not the sum of the route weights (lower-bound options must cope)
             twin = sweep.node_twin(inst)
             inputs.append(("node", twin, dict(base_kw, flow_attr_origin="node")))
+            if cyc:
+                # all flows below 1 (float weights), and node mode with an additional start
+                inputs.append(("float,scaled_0.1", dict(inst, arcs=[[a[0], a[1], a[2] * 0.1] for a in inst["arcs"]]), dict(base_kw, weight_type="float")))
+                inn_ = sweep.inner_nodes(inst)
+                if inn_:
+                    inputs.append(("node,additional_start", twin, dict(base_kw, flow_attr_origin="node", additional_starts=[inn_[0]])))
             srcs = [x for x in inst["nodes"] if not any(a[1] == x for a in inst["arcs"])]
             if len(srcs) >= 1 and len(inst["nodes"]) >= 3:
                 nw = dict(twin["node_w"])
